@@ -309,8 +309,14 @@ def gen_ops(ctx):
     for b in RESP_FIELD_BITS:
         ALL_RESP |= 1 << b
 
-    def e2e_call(mode):
+    def e2e_call(mode, path=None, tl2_=None, req_mask=None, resp_flags=None):
+        """path: d direct answer | l longpoll answered after FinishLongpoll | e longpoll answered by SendEmptyResponse |
+        c longpoll cancelled by the caller"""
+        if path is None:
+            path = rng.choice("dddddllllleeec")
         qid, actor, tl2, body, e = req_fields("rt")
+        if tl2_ is not None:
+            tl2 = tl2_
         e.flags &= ~(1 << 7)
         if e.flags & (1 << 23):     # the client refuses negative / unflagged custom timeouts and clears zero ones
             e.timeout = rng.randrange(100000, 1 << 31)
@@ -337,16 +343,24 @@ def gen_ops(ctx):
             e.flags |= z.flags
             e.flags &= ~((1 << 7) | (1 << 23))
             e.timeout = 0
+        if req_mask is not None:      # sweeps over the response bits: request asks for req_mask, handler sets resp_flags
+            e.flags = (e.flags & ~ALL_RESP & ~((1 << 7) | (1 << 23))) | req_mask
+            e.timeout = 0
+            re_ = RespExtra(rng)
+            re_.flags = resp_flags
         err = rerr(rng) if rng.random() < 0.3 else None
-        rb = rbody(rng, RESP_SPECIAL, minlen=0 if tl2 else 4)
-        toks = f"{qid} {actor} {tl2} {hx(body)} {e.tokens()} {hx(rb)} {err_tok(err)} {re_.tokens()}"
+        # (an empty body without error in the empty-response path is answered with ErrLongpollNoEmptyResponse by design)
+        rb = rbody(rng, RESP_SPECIAL, minlen=0 if tl2 and path != "e" else 4)
+        toks = f"{path} {qid} {actor} {tl2} {hx(body)} {e.tokens()} {hx(rb)} {err_tok(err)} {re_.tokens()}"
         seen = f"{actor} {tl2} {struct.unpack('<I', body[:4])[0]} {hx(body)} {e.norm_tokens()}"
-        if err is not None:
+        if path == "c":
+            got = "cancelled"
+        elif err is not None:
             code = err[0] if err[0] != 0 else U32 - 3999
             got = f"E:{code}:{sub(err[1])}:. {re_.norm_tokens(e.flags)}"
         else:
             got = f"B:{hx(rb)} {re_.norm_tokens(e.flags)}"
-        return toks, seen + " => " + got
+        return toks, seen + " => " + got, path
 
     for i in range(120 if quick else 1200):
         k = rng.randrange(2, 7)
@@ -359,7 +373,28 @@ def gen_ops(ctx):
             modes = [rng.choice(["none", "full", "zero", "random", "random"]) for _ in range(k)]
         calls = [e2e_call(m) for m in modes]
         line = f"e2e {k} " + " ".join(c[0] for c in calls)
-        ops.append((line, "end-to-end", {"want": "ok " + " ; ".join(c[1] for c in calls), "modes": modes}))
+        ops.append((line, "end-to-end", {"want": "ok " + " ; ".join(c[1] for c in calls),
+                                         "modes": [f"{m}/{c[2]}" for m, c in zip(modes, calls)]}))
+    # the longpoll paths for every response bit, both ways (request asks for one bit and the handler sets all; request
+    # asks for all and the handler sets one), both body formats; and random flag words on both sides
+    sweep = []
+    for path in ("l", "e"):
+        for tl2 in (0, 1):
+            for b in RESP_FIELD_BITS:
+                sweep.append((path, tl2, 1 << b, ALL_RESP))
+                sweep.append((path, tl2, ALL_RESP, 1 << b))
+            sweep.append((path, tl2, ALL_RESP, ALL_RESP))
+            sweep.append((path, tl2, 0, ALL_RESP))
+            for _ in range(6 if quick else 60):
+                sweep.append((path, tl2, rflags(rng, RESP_FIELD_BITS, []), rflags(rng, RESP_FIELD_BITS, [7, 8, 13, 15, 26, 28, 31])))
+    for j in range(0, len(sweep), 6):
+        calls = [e2e_call("sweep", path=p_, tl2_=t_, req_mask=m_, resp_flags=f_) for p_, t_, m_, f_ in sweep[j:j + 6]]
+        line = f"e2e {len(calls)} " + " ".join(c[0] for c in calls)
+        ops.append((line, "end-to-end-longpoll-bits", {"want": "ok " + " ; ".join(c[1] for c in calls),
+                                                        "modes": [f"sweep/{c[2]}" for c in calls]}))
+    # what the longpoll record saves (reflection on the real structs vs the model's hctx_fields)
+    ops.append(("lpfields actorID requestExtraFieldsmask reqTag bodyFormatTL2 noResult queryID RequestExtra", "longpoll-saved-fields",
+                {"want": "ok actorID=1 requestExtraFieldsmask=1 reqTag=1 bodyFormatTL2=1 noResult=1 queryID=0 RequestExtra=0"}))
 
     # ---- arbitrary / malformed wire bytes to the parsers (model == Go; no panic)
     def le32(v):
@@ -453,7 +488,10 @@ def oracle(ctx, ops, go_out):
                     r2 = rest[len(data["want_req"]) + 4:].split(" ", 1)
                     ok = len(r2) == 2 and r2[1] == data["want_resp"]
             why = "request/response round trip through one handler context"
-        elif kind == "end-to-end":
+        elif kind == "longpoll-saved-fields":
+            ok = out == data["want"]
+            why = "a member of HandlerContext that the response depends on is not part of handlerContextFields, i.e. it is lost between StartLongpoll and FinishLongpoll"
+        elif kind in ("end-to-end", "end-to-end-longpoll-bits"):
             ok = out == data["want"]
             why = "a caller of a real client saw something else than what the handler set for that call (or the handler saw something else than what the caller sent)"
             if not ok and out.startswith("ok "):
@@ -471,13 +509,17 @@ def post(ctx, ops, model_out, go_out):
     """evidence that the end-to-end calls really went through the client's Response pool"""
     reused = 0
     calls = 0
+    paths = {}
     for (op, kind, data), side in zip(ops, GO.side):
-        if kind == "end-to-end":
+        if kind in ("end-to-end", "end-to-end-longpoll-bits"):
             calls += len(data["modes"])
+            for m in data["modes"]:
+                paths[m[-1]] = paths.get(m[-1], 0) + 1
             d = kv(side)
             if "pooled_response_reused_total" in d:
                 reused = max(reused, int(d["pooled_response_reused_total"]))
-    ctx.notes["end_to_end"] = {"calls_on_one_client": calls, "calls_that_got_the_previous_pooled_Response": reused}
+    ctx.notes["end_to_end"] = {"calls_on_one_client": calls, "calls_that_got_the_previous_pooled_Response": reused,
+                               "calls_by_path(d direct, l longpoll+FinishLongpoll, e longpoll+SendEmptyResponse, c longpoll cancelled)": paths}
     if calls and reused * 2 < calls:
         ctx.violation("C40:e2e:pool-not-exercised", f"only {reused} of {calls} end-to-end calls reused a pooled Response: the recycle path is not exercised",
                       {"calls": calls, "reused": reused}, no_input=True)
@@ -497,4 +539,6 @@ def run(ctx):
                      "handler errors are *rpc.Error values (the errors.As branch of prepareResponseBody); error code 0 is replaced by tlerrorcodes.Unknown by design",
                      "Go code is modelled, not verified: agreement is established on the operations listed under op_kinds"],
         rule="operations generated from VERIF_SEED; every op calls the real preparePacket/ParseInvokeReq/prepareResponseBody/parseResponseExtra (rebuilt from /repo with the overlay harness) and the extracted Coq model; "
+             "e2e ops run sequences of calls on one real Client/Server pair, answered directly or through the longpoll path "
+             "(StartLongpoll, then FinishLongpoll+SendLongpollResponse / SendEmptyResponse / cancel); "
              "distinct = distinct operation lines")
